@@ -396,6 +396,71 @@ func TestCheck(t *testing.T) {
 		}
 	}
 
+	// (3d) one coder object reused for a sequence of reconstructions with different erasure patterns (state carried between calls)
+	for si, sc := range []struct {
+		coder string
+		d, p  int
+		pats  [][]int
+	}{
+		{"cauchy", 6, 3, [][]int{{0}, {1}, {0, 1}, {2, 5}, {5}, {4}, {0}}},
+		{"vand", 9, 4, [][]int{{8}, {7}, {7, 8}, {0, 8}, {1}, {1}}},
+		{"cauchy", 56000, 2, [][]int{{55296}, {55297}, {55296, 7}, {55298, 7}, {1}, {55999}}},
+		{"cauchy", 65000, 2, [][]int{{57343}, {57344}, {64999}, {55295}, {55296}}},
+		{"vand", 32768, 2, [][]int{{32767}, {32766}, {0}, {1}}},
+	} {
+		if !cfg.Mine(3000+si) || (sc.d > 1000 && !cfg.Thorough() && si != 2) {
+			continue
+		}
+		rec.Class("coder-reused-across-calls")
+		rec.Eval()
+		var coder rsec16.Coder
+		var err error
+		if sc.coder == "cauchy" {
+			coder, err = rsec16.NewCoderCauchy(sc.d, sc.p, 2)
+		} else {
+			coder, err = rsec16.NewCoderPAR2Vandermonde(sc.d, sc.p, 2)
+		}
+		if err != nil {
+			rec.Fail("seq", Case{Coder: sc.coder, D: sc.d, P: sc.p}, "", "NewCoder failed: "+err.Error())
+			continue
+		}
+		s := uint64(si)*7919 + 3
+		data := make([][]byte, sc.d)
+		for j := range data {
+			data[j] = make([]byte, 4)
+			for k := range data[j] {
+				data[j][k] = byte(xs(&s) >> 13)
+			}
+		}
+		parity := coder.GenerateParity(data)
+		for pi, pat := range sc.pats {
+			work := make([][]byte, sc.d)
+			copy(work, data)
+			for _, m := range pat {
+				work[m] = nil
+			}
+			var rerr error
+			if p, msg := run.Safe(func() { rerr = coder.ReconstructData(work, parity) }); p {
+				rec.Fail("seq", Case{Coder: sc.coder, D: sc.d, P: sc.p, MissD: pat}, "", "ReconstructData panicked: "+msg)
+				break
+			}
+			bad := -1
+			if rerr == nil {
+				for _, m := range pat {
+					if !bytes.Equal(work[m], data[m]) {
+						bad = m
+					}
+				}
+			}
+			if rerr != nil || bad >= 0 {
+				rec.Fail("seq", Case{Coder: sc.coder, D: sc.d, P: sc.p, MissD: pat, Seed: uint64(pi)}, "",
+					fmt.Sprintf("call %d on a reused %s coder (d=%d,p=%d), missing %v: err=%v, wrong shard=%d (earlier patterns: %v)", pi, sc.coder, sc.d, sc.p, pat, rerr, bad, sc.pats[:pi]))
+				break
+			}
+			rec.NonTrivial(Case{Coder: sc.coder, D: sc.d, P: sc.p, MissD: pat, Seed: uint64(1000 + pi)})
+		}
+	}
+
 	// (4) limits
 	if cfg.Shard == 0 {
 		do(Case{Coder: "vand", D: 32769, P: 1, Len: 2, G: 1})
